@@ -53,7 +53,7 @@ def load_known_findings():
 
 # --------------------------------------------------------------------------- extraction
 
-VX_KEYS = ("id", "file", "path", "spec", "ret_name", "keep_fields", "keep_variants", "extra_fields", "keep_derives",
+VX_KEYS = ("id", "file", "path", "spec", "ret_name", "keep_fields", "keep_variants", "override_value", "extra_fields", "keep_derives",
            "rules", "rename", "slice", "keep_vis", "any_expr", "rename_calls", "erase_async", "add_attrs")
 
 
@@ -361,7 +361,7 @@ def _write_if_changed(p, text):
 
 
 def run_kani_harness(crate_dir, harness, timeout=600, playback=False, extra=None, target_dir=None):
-    cmd = ["cargo", "kani", "-Z", "function-contracts", "-Z", "stubbing", "--harness", harness]
+    cmd = ["cargo", "kani", "-Z", "function-contracts", "-Z", "stubbing", "--harness", (harness if "::" in harness else "verif::" + harness), "--exact"]
     if playback:
         cmd += ["-Z", "concrete-playback", "--concrete-playback=print"]
     if extra:
@@ -389,6 +389,8 @@ def run_kani_harness(crate_dir, harness, timeout=600, playback=False, extra=None
     res["solver_s"] = float(mt.group(1)) if mt else None
     if p.returncode == 124:
         res["status"] = "timeout"
+    elif "run out of memory" in out or ("CBMC failed" in out and not res["failed_descriptions"]):
+        res["status"] = "oom"
     elif ms and ms.group(1) == "SUCCESSFUL":
         res["status"] = "ok"
     elif ms and ms.group(1) == "FAILED":
